@@ -455,10 +455,25 @@ def targeted():
     return [{"lines": ls, "seed": 7 + i} for i, ls in enumerate(out)]
 
 
+def corpus():
+    import glob
+    import json
+    d = os.path.join(os.path.dirname(os.path.dirname(os.path.dirname(os.path.abspath(__file__)))), "corpus", ID)
+    out = []
+    for p in sorted(glob.glob(os.path.join(d, "*.json"))):
+        c = json.load(open(p))
+        c.pop("why", None)
+        out.append(c)
+    return out
+
+
 def generate(rng, tier):
-    cases = targeted()
-    streams = ["targeted"] * len(cases)
-    n = 330 if tier == "quick" else 4000
+    cases = corpus()
+    streams = ["corpus"] * len(cases)
+    t = targeted()
+    cases += t
+    streams += ["targeted"] * len(t)
+    n = 1000 if tier == "quick" else 12000
     for _ in range(n):
         cases.append(gen_case(rng, tier))
         streams.append("random")
@@ -659,6 +674,12 @@ def run_impl(cases):
                 if (o != base) if docs else (strip_docs(o) != strip_docs(base)):
                     fail = "variant %d (%s) yields a different model; text=%r canonical=%r" % (k, "same docs expected" if docs else "modulo docs", text, vs[0][0])
                     break
+            # the grammar's own \r?\n rule (files are read with universal newlines, so it is reached only through the parser API):
+            # the event stream of the parser, line numbers included, must not depend on the line terminator
+            if fail is None:
+                lf = vs[0][0]
+                if trace(lf) != trace(lf.replace("\n", "\r\n")):
+                    fail = "the parser's event stream differs between LF and CRLF for %r" % lf
             # implementation-side consistency of the accessors
             if fail is None:
                 for sec in (base["req"], base["resp"]):
